@@ -206,3 +206,9 @@ Proof.
   - intros _. vm_compute. split; reflexivity.
   - split; [vm_compute; reflexivity|]. intros l Hl. lia.
 Qed.
+
+(* a global statement at module level for a name the module never binds *)
+Lemma module_level_global_refuted :
+  in_fragment_C15 w_module_level_global_unbound = false
+  /\ lookup_differs w_module_level_global_unbound 3 bi_module_level_global_unbound ids_module_level_global_unbound.
+Proof. split; [vm_compute; reflexivity|]. exists (@nil nat), 0%N. vm_compute. discriminate. Qed.
